@@ -19,7 +19,7 @@ class Builder:
     def __init__(self, rnd):
         self.rnd = rnd
         self.templates = {}
-        self.next_tid = rnd.choice([0x100, 0x123, 0x5A0])
+        self.next_tid = rnd.choice([0x100, 0x123, 0x5A0, 0x2C1, 0x1C9])    # incl. ids whose low byte is an elementary type code
         self.next_handle = rnd.randint(0x1000, 0xE000)
 
     def tsize(self, t):
